@@ -117,6 +117,12 @@ def gen_cases(rng, tier):
   for k in range(6 if tier == "quick" else 40):
     xs, ys = gen_data(rng, rng.choice([4, 6, 9]))
     cases.append({"kind": "reader_nonfinite_x", "x": xs, "y": ys, "bad": rng.choice(["nan", "NaN", "-nan", "inf", "-inf"]), "at": rng.randrange(len(xs) + 1), "seed": rng.randrange(1 << 30)})
+  # two table forms in one file whose data differ ONLY by -1 versus -2 (hash(-1.0) == hash(-2.0) in CPython): each passes
+  # through its own points, whatever was fitted just before it
+  for k in range(6 if tier == "quick" else 40):
+    xs, ys = gen_data(rng, rng.choice([4, 6, 9]))
+    at = rng.randrange(len(xs))
+    cases.append({"kind": "table_hashpair", "x": xs, "y": ys, "at": at, "in_x": k % 3 == 2, "order": k % 2, "seed": rng.randrange(1 << 30)})
   # files without a single data row (empty, comments and blank lines only): nothing is tabulated, so every x is outside
   for k in range(4 if tier == "quick" else 12):
     cases.append({"kind": "reader_empty", "text": ["", "# nothing here\n", "\n\n   \n", "# a\n\n# b", "#\r\n\r\n"][k % 5], "seed": rng.randrange(1 << 30)})
@@ -368,6 +374,44 @@ def run_reader_nonfinite_x(case, ctx):
   ctx.nontrivial(True)
 
 
+def run_table_hashpair(case, ctx):
+  ctx.cls("two_table_forms_differing_by_minus_one_and_minus_two")
+  xs, ys = list(case["x"]), list(case["y"])
+  at = case["at"]
+  a_, b_ = (-1.0, -2.0) if case["order"] else (-2.0, -1.0)
+  if case["in_x"]:
+    # the first abscissa (everything else lies above it)
+    shift = max(0.0, -3.0 - min(xs))
+    xs1 = [a_] + [x + 3.0 for x in xs[1:]] if True else xs
+    xs2 = [b_] + [x + 3.0 for x in xs[1:]]
+    xs1[1:] = [x - min(xs[1:]) + 0.5 for x in xs[1:]]
+    xs2[1:] = list(xs1[1:])
+    d1, d2 = (xs1, ys), (xs2, ys)
+  else:
+    y1, y2 = list(ys), list(ys)
+    y1[at], y2[at] = a_, b_
+    d1, d2 = (xs, y1), (xs, y2)
+  def sec(name, d):
+    return "[Table-Form:%s]\nx : %s\ny : %s\n" % (name, " ".join(fnum(v) for v in d[0]), " ".join(fnum(v) for v in d[1]))
+  lo = min(d1[0][0], d2[0][0]) - 10.0
+  text = "[Tabulation]\ntarget : LAMMPS\nnr : 5\ncutoff : 2.0\n\n[Pair]\nA-A : >=%s tone\nB-B : >=%s ttwo\n\n%s\n%s" % (fnum(lo), fnum(lo), sec("tone", d1), sec("ttwo", d2))
+  try:
+    pots = {p.speciesA: p.potentialFunction for p in routes.read_config(text).potentials}
+  except Exception as e:
+    et, fn = exc_sig(e)
+    ctx.violation("exception", "two table forms could not be built: %s %s" % (et, e), what="exception", exc=et, func=fn)
+    return
+  for nm, d in (("A", d1), ("B", d2)):
+    scale = max(abs(v) for v in d[1]) or 1.0
+    for x_, y_ in zip(*d):
+      v = pots[nm](x_)
+      ctx.count("knot_points")
+      if not (abs(v - y_) <= 1e-9 * scale):
+        ctx.violation("data_point", "table form %s of two that differ only by -1 / -2: f(%r) = %r, tabulated y = %r" % ("tone" if nm == "A" else "ttwo", x_, v, y_), what="data_point", mech="hash_colliding_tables")
+        return
+  ctx.nontrivial(True)
+
+
 def run_reader_empty(case, ctx):
   import atsim.potentials as ap
   ctx.cls("reader_file_without_rows")
@@ -452,4 +496,4 @@ def run_plot(case, ctx):
 
 def run_case(case, ctx):
   ctx.cls("kind:" + case["kind"])
-  return {"table": run_table, "reader": run_reader, "plot": run_plot, "reader_empty": run_reader_empty, "reader_nonfinite_x": run_reader_nonfinite_x}[case["kind"]](case, ctx)
+  return {"table": run_table, "reader": run_reader, "plot": run_plot, "reader_empty": run_reader_empty, "reader_nonfinite_x": run_reader_nonfinite_x, "table_hashpair": run_table_hashpair}[case["kind"]](case, ctx)
